@@ -113,6 +113,7 @@ def run_case(case: dict) -> dict:
     t = 0.0
     nseg = rng.randint(2, 4)
     tiny_updates = 0
+    mid_reads = 0
     for i in range(nseg):
         if i > 0:
             upd = {p: round(rng.uniform(0.3, 2.0), 3) for p in rng.sample(sorted(params), rng.randint(1, 2))}
@@ -134,6 +135,14 @@ def run_case(case: dict) -> dict:
             sim.simulate_time_course(pts)
             history.append({"time_course": pts})
         seg_params.append(dict(params))
+        if i < nseg - 1 and rng.random() < 0.35:
+            # the result so far is taken and its views are read before the simulator goes on
+            mid = sim.get_result().value
+            if not isinstance(mid, Exception):
+                for view in rng.sample(["fluxes", "variables", "combined", "args"], 2):
+                    _ = mid.get_combined() if view == "combined" else mid.get_args() if view == "args" else getattr(mid, view)
+                mid_reads += 1
+                history.append({"result_taken_and_read": True})
     res = sim.get_result().value
     if isinstance(res, Exception):
         return core.result(sig=case["seed"], nontrivial=False, counters={"integration_failed": 1})
@@ -260,7 +269,7 @@ def run_case(case: dict) -> dict:
     rng.shuffle(order)
     got: dict[int, list] = {}
     viols: list[dict] = []
-    counters = {"views_read": 0, "segments": nseg, "results_stitched_by_hand_with_a_time_label_in_two_segments": stitched, "parameter_sets_differing_by_1e-6_relative": tiny_updates, "models_with_a_state_dependent_coefficient": int(any(c["name"] == "vd" for c in spec["components"])), "models_with_exactly_zero_coefficients": int(any(c["name"] == "vz" for c in spec["components"]))}
+    counters = {"views_read": 0, "segments": nseg, "intermediate_results_taken_and_read_before_the_simulator_went_on": mid_reads, "results_stitched_by_hand_with_a_time_label_in_two_segments": stitched, "parameter_sets_differing_by_1e-6_relative": tiny_updates, "models_with_a_state_dependent_coefficient": int(any(c["name"] == "vd" for c in spec["components"])), "models_with_exactly_zero_coefficients": int(any(c["name"] == "vz" for c in spec["components"]))}
     for i in order:
         r = reads[i]
         try:
